@@ -2,8 +2,6 @@ package traefikoidc_test
 
 import "testing"
 
-func familyVerify(t *testing.T)    { t.Fatal("not built") }
-func familyLimiter(t *testing.T)   { t.Fatal("not built") }
 func familyJwt(t *testing.T)       { t.Fatal("not built") }
 func familyHandler(t *testing.T)   { t.Fatal("not built") }
 func familySession(t *testing.T)   { t.Fatal("not built") }
